@@ -200,7 +200,13 @@ class Builder:
         k = n[0]
         if k == "var":
             if self.fresh_leaves and n[1] in self.leaf_kw:
-                return ox.Variable(n[1], **self.leaf_kw[n[1]])
+                kw_ = dict(self.leaf_kw[n[1]])
+                if self.fresh_leaves == "other-domain":
+                    # a re-declaration of the same name with another domain (a relaxed copy next to the integer original)
+                    self._nfresh = getattr(self, "_nfresh", 0) + 1
+                    if self._nfresh % 2:
+                        kw_.pop("domain", None)
+                return ox.Variable(n[1], **kw_)
             return self.env[n[1]]
         if k == "const":
             return ox.Constant(mk_raw(n[1], n[2] if len(n) > 2 else None))
@@ -214,7 +220,12 @@ class Builder:
             if self.fresh_leaves and n[1][0] == "vec":
                 nm = self.V(n[1])[n[2]].name
                 if nm in self.leaf_kw:
-                    return ox.Variable(nm, **self.leaf_kw[nm])
+                    kw_ = dict(self.leaf_kw[nm])
+                    if self.fresh_leaves == "other-domain":
+                        self._nfresh = getattr(self, "_nfresh", 0) + 1
+                        if self._nfresh % 2:
+                            kw_.pop("domain", None)
+                    return ox.Variable(nm, **kw_)
             return self.V(n[1])[n[2]]
         if k == "mel":
             return self.M(n[1])[n[2], n[3]]
@@ -244,6 +255,11 @@ class Builder:
         if k == "dotQ":
             return self.V(n[1]).dot(self.farr(n[2], "dotQ") @ self.V(n[3]))
         if k == "dotP":
+            sp = n[4] if len(n) > 4 else None
+            if sp == "quadratic_form":  # the MatrixParameter handed to the function API directly
+                return ox.quadratic_form(self.V(n[1]), self.env[n[2]])
+            if sp == "matmul":
+                return self.V(n[1]).dot(ox.matmul(self.env[n[2]], self.V(n[3])))
             return self.V(n[1]).dot(self.env[n[2]] @ self.V(n[3]))
         if k == "msum":
             return self.M(n[1]).sum()
